@@ -1,5 +1,14 @@
+#[cfg(not(feature = "verif-hooks"))]
 use std::collections::HashMap;
 use std::hash::Hash;
+/// verif-hooks: fixed-key hashing so that iteration order of the cache maps (and with it
+/// the order of flush/eviction requests) is a function of the operation history only.
+#[cfg(feature = "verif-hooks")]
+type HashMap<K, V> = std::collections::HashMap<
+    K,
+    V,
+    std::hash::BuildHasherDefault<std::collections::hash_map::DefaultHasher>,
+>;
 use std::sync::atomic::{AtomicBool, AtomicUsize, Ordering};
 use std::sync::Arc;
 
@@ -191,6 +200,23 @@ impl<K: Clone + PartialEq + Eq + Hash + std::fmt::Debug + std::cmp::PartialOrd, 
             let entry = map.remove(&key).unwrap();
             Some((key.clone(), entry))
         }
+    }
+}
+
+#[cfg(feature = "verif-hooks")]
+impl<K: Clone + PartialEq + Eq + Hash + std::fmt::Debug + std::cmp::PartialOrd, V>
+    AsyncLruCache<K, V>
+{
+    /// look up an entry without touching its LRU stamp
+    pub(crate) fn verif_peek(&self, key: K) -> Option<AsyncLruCacheEntry<V>> {
+        let map = self.rmap.read().unwrap();
+        map.get(&key).map(Arc::clone)
+    }
+
+    /// (cached entries, dirty entries)
+    pub(crate) fn verif_counts(&self) -> (usize, usize) {
+        let map = self.rmap.read().unwrap();
+        (map.len(), map.values().filter(|e| e.is_dirty()).count())
     }
 }
 
